@@ -309,6 +309,9 @@ def check_C19(tier):
     engine_run(c, "interrupt", "CoreLimitMenu", lines="Lines3", maxlines=4 if t else 3, maxfiles=2, intrs="AllIntr", tdefs=("plain",))
     engine_run(c, "interrupt-join", "JoinMenu", lines="LinesJ", maxlines=2, maxfiles=1, joinsets="JoinSetsLong", intrs="JoinIntr", tdefs=("plain",))
     laws_trace(c, 2 if t else 1, 300 if t else 100)
+    # the process itself under a real SIGINT (main.rs: the ctrl-c handler): rows are a prefix, an aggregate shows the table of exactly the lines consumed
+    trace_check(c, "sigint", "Trace_Sigint", 40 if t else 10, "sigint", "the sqlgrep process interrupted by SIGINT", constants={"Slack": 20000}, rounds=2 if t else 1,
+                env={"VH_CLI": vlib.build_cli()})
     c.rule, c.assumptions, c.exhaustive = ENGINE_RULE, ENGINE_ASSUME, True
     return c.finish()
 
